@@ -177,7 +177,11 @@ let run (toks : string list) : string =
                | KCnf -> lits ls
                | KWcnf -> str_of_zz p ^ ":" ^ lits ls
                | KGcnf -> "{" ^ str_of_zz p ^ "}" ^ lits ls) items in
-             finish (hitem @ citems) (show_final fin) s)
+             (* flag 'x': after a clean end, Layout.write_doc of the parsed document *)
+             let witem = (match hdr, fin with
+               | Some oh, FOk when has 'x' -> ["W:" ^ hex_of_bytes (write_doc k { d_hdr = oh; d_items = items })]
+               | _ -> []) in
+             finish (hitem @ citems @ witem) (show_final fin) s)
        | "log" ->
            let maxd = max_dimacs ty in
            let r = crun (parse_log fuel maxd (has 'u') lrs_init) s1 in
@@ -205,12 +209,9 @@ let run (toks : string list) : string =
                     let w = (if binary then
                       (let show r = (match r with
                         | WrOk b -> hex_of_bytes b
-                        | WrOverflow -> "OVF"
                         | WrAssert -> "PANIC(!assert)") in
                        let swapped = { a with g_ands = List.map (fun ((o, x), y) -> ((o, y), x)) a.g_ands } in
-                       match write_aig_checked a with
-                       | WrOverflow -> ["W:OVF"]
-                       | r -> ["W:" ^ show r; "WS:" ^ show (write_aig_checked swapped)]) @
+                       ["W:" ^ show (write_aig_checked a); "WS:" ^ show (write_aig_checked swapped)]) @
                       [
                        (if (let d = str_of_n a.g_header.a_inputs in String.length d <= 4 && int_of_string d <= 4096) then "WA:" ^ hex_of_bytes (write_aag_ordered a) else "WA:-")]
                     else ["W:" ^ hex_of_bytes (write_aag a)]) in
